@@ -9,20 +9,33 @@ import shutil
 import threading
 
 
+# kind -> (class name in etasks, takes `keys`); every type except EnvLeaf takes `deps`.  The filter each kind must
+# end up with is NOT stated here: the checker has its own table (props/c16.py FILTER_MODEL).
+KIND_CLASS = {
+    'leaf': ('EnvLeaf', False), 'cached': ('EnvCached', False), 'count': ('EnvCount', False), 'sub': ('EnvSub', True),
+    'mix_first': ('EnvMixFirst', True), 'mix_last': ('EnvMixLast', True), 'mix_grand': ('EnvMixGrand', True),
+    'mix_depth': ('EnvMixDepth', False), 'sub_child': ('EnvSubChild', True), 'sub_grandchild': ('EnvSubGrandChild', True),
+    'sub_mid_child': ('EnvSubMidChild', True), 'mix_child': ('EnvMixChild', True), 'count_child': ('EnvCountChild', False),
+    'sub_override': ('EnvSubOverride', True), 'override_child': ('EnvOverrideChild', True),
+    'count_override': ('EnvCountOverride', False), 'leaf_child': ('EnvLeafChild', False),
+    'leaf_grandchild': ('EnvLeafGrandChild', False), 'plain_child': ('EnvPlainChild', False),
+}
+
+
 def build(job, E):
     n = job['n']
     tasks = []
     for k in range(n):
         deps = tuple(tasks[d] for d in job['deps'][k])
         kind = job['kinds'][k]
-        if kind == 'leaf' and not deps:
-            tasks.append(E.EnvLeaf(k=k))
-        elif kind == 'cached':
-            tasks.append(E.EnvCached(k=k, deps=deps))
-        elif kind == 'count':
-            tasks.append(E.EnvCount(k=k, deps=deps))
+        if kind == 'leaf':
+            tasks.append(E.EnvLeaf(k=k) if not deps else E.EnvSub(k=k, keys=tuple(job['keys'][k]), deps=deps))
+            continue
+        name, takes_keys = KIND_CLASS[kind]
+        if takes_keys:
+            tasks.append(getattr(E, name)(k=k, keys=tuple(job['keys'][k]), deps=deps))
         else:
-            tasks.append(E.EnvSub(k=k, keys=tuple(job['keys'][k]), deps=deps))
+            tasks.append(getattr(E, name)(k=k, deps=deps))
     return tasks
 
 
